@@ -247,6 +247,24 @@ func octalContinuation(p *eng.Prog, fd *eng.FuncDecl) (bool, string) {
 		})
 	}
 	if loop == nil {
+		// the digits may be read by a helper of the package (l.readOctalEscape(first))
+		for _, s := range clause.Body {
+			ast.Inspect(s, func(n ast.Node) bool {
+				if call, ok := n.(*ast.CallExpr); ok && loop == nil {
+					if body := localHelperBody(fd, call); body != nil {
+						ast.Inspect(body, func(m ast.Node) bool {
+							if f, ok := m.(*ast.ForStmt); ok && loop == nil {
+								loop = f
+							}
+							return true
+						})
+					}
+				}
+				return true
+			})
+		}
+	}
+	if loop == nil {
 		return false, "octal escape no longer reads further digits in a bounded loop"
 	}
 	// bound: i < 2
@@ -408,28 +426,40 @@ func ruleOperatorAlphabet(c *eng.Ctx) {
 	}
 	// K: the condition inside parseOperator's scanning loop that accepts a byte
 	var contCond ast.Expr
+	// the scanning loop may have been extracted into a helper method (readOperatorName)
+	bodies := []*ast.BlockStmt{fdOp.Decl.Body}
 	ast.Inspect(fdOp.Decl.Body, func(n ast.Node) bool {
-		fs, ok := n.(*ast.ForStmt)
-		if !ok || contCond != nil {
-			return true
+		if call, ok := n.(*ast.CallExpr); ok {
+			if b := localHelperBody(fdOp, call); b != nil {
+				bodies = append(bodies, b)
+			}
 		}
-		ast.Inspect(fs.Body, func(m ast.Node) bool {
-			is, ok := m.(*ast.IfStmt)
+		return true
+	})
+	for _, body := range bodies {
+		ast.Inspect(body, func(n ast.Node) bool {
+			fs, ok := n.(*ast.ForStmt)
 			if !ok || contCond != nil {
 				return true
 			}
-			// body writes the byte and advances
-			txt := ""
-			for _, s := range is.Body.List {
-				txt += types.ExprString(exprOfStmt(s)) + ";"
-			}
-			if strings.Contains(txt, "WriteByte") || strings.Contains(txt, "p.pos") {
-				contCond = is.Cond
-			}
+			ast.Inspect(fs.Body, func(m ast.Node) bool {
+				is, ok := m.(*ast.IfStmt)
+				if !ok || contCond != nil {
+					return true
+				}
+				// body writes the byte and advances
+				txt := ""
+				for _, s := range is.Body.List {
+					txt += types.ExprString(exprOfStmt(s)) + ";"
+				}
+				if strings.Contains(txt, "WriteByte") || strings.Contains(txt, "p.pos") {
+					contCond = is.Cond
+				}
+				return true
+			})
 			return true
 		})
-		return true
-	})
+	}
 	if contCond == nil {
 		c.Undec(R, "contentstream.(*Parser).parseOperator#operator-continue", fdOp.Decl.Pos(), "cannot find the test that accepts operator bytes")
 		return
@@ -778,4 +808,32 @@ func tokenIndirectRefValue(fn *ssa.Function) int64 {
 		}
 	}
 	return -1
+}
+
+// localHelperBody resolves a call to an unexported function or method declared in
+// the same package and returns its body (nil otherwise).
+func localHelperBody(fd *eng.FuncDecl, x *ast.CallExpr) *ast.BlockStmt {
+	info := fd.Pkg.TypesInfo
+	var id *ast.Ident
+	switch f := x.Fun.(type) {
+	case *ast.Ident:
+		id = f
+	case *ast.SelectorExpr:
+		id = f.Sel
+	}
+	if id == nil || ast.IsExported(id.Name) {
+		return nil
+	}
+	fobj, ok := info.Uses[id].(*types.Func)
+	if !ok || fobj.Pkg() != fd.Pkg.Types {
+		return nil
+	}
+	for _, f := range fd.Pkg.Syntax {
+		for _, d := range f.Decls {
+			if d2, ok := d.(*ast.FuncDecl); ok && d2.Body != nil && info.Defs[d2.Name] == types.Object(fobj) {
+				return d2.Body
+			}
+		}
+	}
+	return nil
 }
